@@ -327,16 +327,16 @@ func (g *gen) field(fieldName string, fieldType types.Type) (string, error) {
 				fieldName = "float32(" + fieldName + ")"
 			}
 			// adding 0 maps -0 to +0, which are equal, and changes no other value
-			return fmt.Sprintf("uint64(%s.Float32bits(%s + 0))", g.mathPkg(), fieldName), nil
+			return fmt.Sprintf("uint64(%s.Float32bits((%s + 0)))", g.mathPkg(), fieldName), nil
 		case types.Float64:
 			if !types.Identical(fieldType, typ) {
 				fieldName = "float64(" + fieldName + ")"
 			}
-			return fmt.Sprintf("%s.Float64bits(%s + 0)", g.mathPkg(), fieldName), nil
+			return fmt.Sprintf("%s.Float64bits((%s + 0))", g.mathPkg(), fieldName), nil
 		case types.Complex64:
-			return fmt.Sprintf("(31 * ((31 * 17) + uint64(%s.Float32bits(real(%s) + 0)))) + uint64(%s.Float32bits(imag(%s) + 0))", g.mathPkg(), fieldName, g.mathPkg(), fieldName), nil
+			return fmt.Sprintf("(31 * ((31 * 17) + uint64(%s.Float32bits((real(%s) + 0))))) + uint64(%s.Float32bits((imag(%s) + 0)))", g.mathPkg(), fieldName, g.mathPkg(), fieldName), nil
 		case types.Complex128:
-			return fmt.Sprintf("(31 * ((31 * 17) + %s.Float64bits(real(%s) + 0))) + %s.Float64bits(imag(%s) + 0)", g.mathPkg(), fieldName, g.mathPkg(), fieldName), nil
+			return fmt.Sprintf("(31 * ((31 * 17) + %s.Float64bits((real(%s) + 0)))) + %s.Float64bits((imag(%s) + 0))", g.mathPkg(), fieldName, g.mathPkg(), fieldName), nil
 		case types.String, types.UntypedString:
 			return fmt.Sprintf("%s(%s)", g.GetFuncName(fieldType), fieldName), nil
 		}
